@@ -23,6 +23,9 @@ pub struct Case {
     pub content: Content,
     pub memory_store: bool,
     pub prf: bool,
+    /// the descriptors of the allow / exclude list carry an unknown credential type
+    #[serde(default)]
+    pub unknown_type: bool,
 }
 
 const RP: &str = "example.com";
@@ -44,7 +47,10 @@ pub fn cases(tier: Tier) -> Vec<Case> {
                         continue;
                     }
                     let api = if c.op == Op::Make { "make_credential" } else { "get_assertion" };
-                    v.push(Case { api: api.into(), cfg: c.clone(), content, memory_store, prf });
+                    v.push(Case { api: api.into(), cfg: c.clone(), content, memory_store, prf, unknown_type: false });
+                    if matches!(content, Content::MatchViaList | Content::OtherRpOnly | Content::TwoViaList) && !prf {
+                        v.push(Case { api: api.into(), cfg: c.clone(), content, memory_store, prf, unknown_type: true });
+                    }
                 }
             }
         }
@@ -54,7 +60,7 @@ pub fn cases(tier: Tier) -> Vec<Case> {
             for memory_store in [false, true] {
                 for prf in [false, true] {
                     let cfg = C04Case { op: Op::Get, rk: false, up: true, uv: false, cap, presence_cap, outcome: 3, pin: false, arc_mutex: false, level: 0, uvreq: 0 };
-                    v.push(Case { api: "get_info".into(), cfg, content: Content::NoMatch, memory_store, prf });
+                    v.push(Case { api: "get_info".into(), cfg, content: Content::NoMatch, memory_store, prf, unknown_type: false });
                 }
             }
         }
@@ -138,7 +144,12 @@ where
         }
         "make_credential" => {
             let ext = c.prf.then(|| make_credential::ExtensionInputs { hmac_secret: Some(true), hmac_secret_mc: None, prf: Some(prf()) });
-            let req = mc_request(RP, &[9, 9], list, cfg.rk, cfg.up, cfg.uv, cfg.pin, ext);
+            let mut req = mc_request(RP, &[9, 9], list, cfg.rk, cfg.up, cfg.uv, cfg.pin, ext);
+            if c.unknown_type {
+                for d in req.exclude_list.iter_mut().flatten() {
+                    d.ty = passkey_types::webauthn::PublicKeyCredentialType::Unknown;
+                }
+            }
             let r = if via_trait { block_on(Ctap2Api::make_credential(&mut auth, req)) } else { block_on(auth.make_credential(req)) };
             match r {
                 Err(e) => format!("err:{:02x}", sc_byte(e)),
@@ -152,7 +163,12 @@ where
         }
         _ => {
             let ext = c.prf.then(|| get_assertion::ExtensionInputs { hmac_secret: None, prf: Some(prf()) });
-            let req = ga_request(RP, list, cfg.rk, cfg.up, cfg.uv, cfg.pin, ext);
+            let mut req = ga_request(RP, list, cfg.rk, cfg.up, cfg.uv, cfg.pin, ext);
+            if c.unknown_type {
+                for d in req.allow_list.iter_mut().flatten() {
+                    d.ty = passkey_types::webauthn::PublicKeyCredentialType::Unknown;
+                }
+            }
             let r = if via_trait { block_on(Ctap2Api::get_assertion(&mut auth, req)) } else { block_on(auth.get_assertion(req)) };
             match r {
                 Err(e) => format!("err:{:02x}", sc_byte(e)),
@@ -362,7 +378,7 @@ impl IsoSpace for Space {
         format!("api={}", self.cases[idx].api)
     }
     fn limit_ms(&self) -> u64 {
-        10_000
+        30_000
     }
 }
 
@@ -377,7 +393,7 @@ pub fn run(ctx: &Ctx) -> Result<Run, String> {
     let stats = iso::run(&sp, &cfg)?;
     let mut run = Run::from_stats(
         "model_checking",
-        "differential enumeration: every configuration of the C04 product at CTAP2 level (operation, rk/up/uv, verification capability, validation outcome, pin-auth) x 4 store contents x {contract store, Arc<Mutex<MemoryStore>>} x PRF extension on/off, and getInfo for every capability combination, plus all pairs (thorough: triples) of operations on ONE authenticator with a capability change in between (verification / presence / store capability), each run once through the inherent method and once through <Authenticator as Ctap2Api> on identically seeded authenticators inside isolated worker processes (8 MiB stack, 10 s watchdog); compared: result (status byte or full response incl. RFC 6979 signature bytes; fresh ids/keys normalised), store snapshot, store/user-validation call log. Non-trivial = distinct case whose direct call reached a verdict",
+        "differential enumeration: every configuration of the C04 product at CTAP2 level (operation, rk/up/uv, verification capability, validation outcome, pin-auth) x 4 store contents x {contract store, Arc<Mutex<MemoryStore>>} x PRF extension on/off x descriptor type {public-key, unknown}, and getInfo for every capability combination, plus all pairs (thorough: triples) of operations on ONE authenticator with a capability change in between (verification / presence / store capability), each run once through the inherent method and once through <Authenticator as Ctap2Api> on identically seeded authenticators inside isolated worker processes (8 MiB stack, 30 s watchdog); compared: result (status byte or full response incl. RFC 6979 signature bytes; fresh ids/keys normalised), store snapshot, store/user-validation call log. Non-trivial = distinct case whose direct call reached a verdict",
         true,
         stats,
     );
@@ -423,6 +439,6 @@ impl IsoSpace for OneOf {
         self.inner.death_key(self.idx)
     }
     fn limit_ms(&self) -> u64 {
-        10_000
+        30_000
     }
 }
